@@ -344,6 +344,30 @@ def _loop_as_element(stmts, name):
     return None
 
 
+def split_conditional_statements(body):
+    """x = A if c else B  ->  if c: x = A  else: x = B      (also `return A if c else B`, and `x += A if c else B`)
+    The two forms evaluate the same expressions in the same order; the statement form gives the value its path condition."""
+    out = []
+    for st in body:
+        for field in ('body', 'orelse', 'finalbody'):
+            b = getattr(st, field, None)
+            if isinstance(b, list) and b and isinstance(b[0], ast.stmt) and not isinstance(st, ast.ClassDef):
+                setattr(st, field, split_conditional_statements(b))
+        if isinstance(st, ast.Try):
+            for h in st.handlers:
+                h.body = split_conditional_statements(h.body)
+        v = getattr(st, 'value', None)
+        if isinstance(v, ast.IfExp) and isinstance(st, (ast.Assign, ast.Return, ast.AugAssign)) and not (
+                isinstance(st, ast.Assign) and len(st.targets) != 1):
+            a, b = copy.deepcopy(st), copy.deepcopy(st)
+            a.value, b.value = v.body, v.orelse
+            arms = [split_conditional_statements([a]), split_conditional_statements([b])]
+            out.append(ast.copy_location(ast.If(v.test, arms[0], arms[1]), st))
+            continue
+        out.append(st)
+    return out
+
+
 def recover_comprehensions(body):
     """xs = [] ; for t in it: xs.append(e)   ->   xs = [e for t in it]     (the loop body is exactly that append)"""
     out = []
@@ -400,11 +424,11 @@ def inline_project(trees, exports):
     for mod, tree in trees.items():
         for st in tree.body:
             if isinstance(st, ast.FunctionDef):
-                st.body = recover_comprehensions(st.body)
+                st.body = recover_comprehensions(split_conditional_statements(st.body))
             elif isinstance(st, ast.ClassDef):
                 for b in st.body:
                     if isinstance(b, ast.FunctionDef):
-                        b.body = recover_comprehensions(b.body)
+                        b.body = recover_comprehensions(split_conditional_statements(b.body))
         ast.fix_missing_locations(tree)
     if not any(helpers.values()) and not any(any(n.startswith('_') and not n.startswith('__') for n in m) for m in methods.values()):
         return 0
